@@ -114,8 +114,8 @@ func init() {
 
 func init() {
 	props["C17"] = &propCfg{
-		Level: "exploration",
-		Rule:  "a scenario is a seeded (lazy-capable type, 2-3 wire inputs: valid / legal non-minimal / corrupt inside a nested, preferably lazy, submessage; a history of 3-14 reads and writes); each input is decoded lazily and eagerly, verdicts compared, and the history is applied to both in lock-step with every result compared; the schedule dimension is when deferred decoding happens relative to writes, failed re-decodes, merges, clones and owner scribbles; non-trivial = history contains at least one write or re-decode after the first lazy decode; distinct by hash of (type, operation sequence)",
+		Level:       "exploration",
+		Rule:        "a scenario is a seeded (lazy-capable type, 2-3 wire inputs: valid / legal non-minimal / corrupt inside a nested, preferably lazy, submessage; a history of 3-14 reads and writes); each input is decoded lazily and eagerly, verdicts compared, and the history is applied to both in lock-step with every result compared; the schedule dimension is when deferred decoding happens relative to writes, failed re-decodes, merges, clones and owner scribbles; non-trivial = history contains at least one write or re-decode after the first lazy decode; distinct by hash of (type, operation sequence)",
 		Assumptions: append([]string{"Size may differ between the two sides while a non-minimal encoding is still held undecoded (documented exception); partial states after a decode that failed on both sides are erased before continuing"}, commonAssumptions...),
 		Components:  comps("owner of the original input buffer (scribbles it at a seeded instant)"),
 		Clauses:     "same Unmarshal error verdict; same field values, presence, Equal, CheckInitialized, deterministic Marshal bytes, JSON and text content after every history; Marshal output encodes the same content; no panic at any access after a successful Unmarshal",
@@ -123,5 +123,19 @@ func init() {
 		FaultKinds:  []string{"failed-decode", "denormalised-wire", "scribble"},
 		Quick:       plan{Builds: []buildCfg{{Race: false, Share: 1}}, Secs: 30},
 		Thorough:    plan{Builds: []buildCfg{{Race: false, Share: 3}, {Race: false, Tags: []string{"protoopaque"}, Share: 2}, {Race: true, Share: 1}}, Secs: 900},
+	}
+}
+
+func init() {
+	props["C33"] = &propCfg{
+		Level:       "exploration",
+		Rule:        "a scenario is a seeded universe of 4-9 small files over a deliberately tiny name space (packages a, a.b, a.b.c, b, a.M; names M N E V S x b c W; extension numbers 1-3; 5 paths) plus their message/enum/extension types, and an operation history in one of three modes: sequential on local registries (operation-by-operation equality with the name-table model; full observation unchanged after every failed registration), phased (exclusive registration phases alternating with 2-4 concurrent lookup clients), global (2-4 clients issuing all operations concurrently on registries swapped into GlobalFiles/GlobalTypes; the recorded history, stamped with scheduler event sequence numbers, is checked for linearizability against the model with porcupine); non-trivial = at least one registration conflict, or a concurrent phase; distinct by hash of (mode, operation sequence, final state)",
+		Assumptions: append([]string{"the name-table model is written from the documentation of protoregistry; universe files are valid schemas (protodesc.NewFile accepts them)", "conflicting registrations on the global registries panic by policy and are modelled as 'panic, no state change'"}, commonAssumptions...),
+		Components:  comps("GlobalFiles/GlobalTypes point at fresh registries in global mode", "porcupine v1.3.0 decides linearizability of recorded histories (Unknown = inconclusive, never reported)"),
+		Clauses:     "registration succeeds iff no path, package-versus-declaration, declaration-name or extension-number conflict; failed registration changes nothing; every declaration of a registered file (nested messages, fields, oneofs, enum values in enclosing scope, extensions, services, methods) found by full name; counts and ranges enumerate exactly the registered entries; concurrent Find/Range safe; concurrent use of the global registries linearizable",
+		Probes:      []string{"registrations", "registration-conflicts", "mode-sequential", "mode-phased", "mode-global", "concurrent-lookup-phases", "histories-checked-by-porcupine"},
+		FaultKinds:  []string{"sched-switch"},
+		Quick:       plan{Builds: []buildCfg{{Race: true, Share: 1}}, Secs: 30},
+		Thorough:    plan{Builds: []buildCfg{{Race: true, Share: 2}, {Race: false, Share: 1}}, Secs: 600},
 	}
 }
